@@ -15,7 +15,7 @@ var c02Kinds = []objKind{kTCPDial, kTCPAcc, kAdTCP, kAdUnix}
 
 func TestC02_StreamFidelity(t *testing.T) {
 	rec := evid.For("C02")
-	rec.SetRule("rapid state machine over 1..3 stream pairs {sonic.Dial conn, accepted conn, AsyncAdapter over TCP net.Conn, AsyncAdapter over a socketpair} <-> raw peer: local AsyncRead/AsyncReadAll (1..300000 bytes) and AsyncWrite/AsyncWriteAll (1..2 MiB on conns, <=8 KiB on adapters), both directions interleaved, from top level or from the dispatch limit, handlers re-issue; adapters over TCP additionally get multi-MiB writes under a 15 ms write deadline while the peer does not drain (net.Conn.Write returns a partial count with a timeout: the reported count must be exact, the stream continues from it); peer writes/drains generated chunk sizes so that *All operations need several kernel transfers and hit would-block in the middle; both streams carry position-dependent bytes; oracle: every read completion's bytes equal the peer's stream at the running offset, 0<n<=len on success, ReadAll/WriteAll success => n==len, the peer receives exactly the written stream in order, final drained length == sum of reported n when all writes succeeded; non-trivial = an *All operation that completed from the poller (needed >=2 transfers) OR read and write in flight together; distinct = hash of the trace")
+	rec.SetRule("rapid state machine over 1..3 stream pairs {sonic.Dial conn, accepted conn, AsyncAdapter over TCP net.Conn, AsyncAdapter over a socketpair} <-> raw peer: local AsyncRead/AsyncReadAll (1..300000 bytes) and AsyncWrite/AsyncWriteAll (1..2 MiB on conns, <=8 KiB on adapters), both directions interleaved, from top level or from the dispatch limit, handlers re-issue; adapters over TCP additionally get multi-MiB writes under a 15 ms write deadline while the peer does not drain (net.Conn.Write returns a partial count with a timeout: the reported count must be exact, the stream continues from it); peer writes/drains generated chunk sizes so that *All operations need several kernel transfers and hit would-block in the middle; both streams carry position-dependent bytes; oracle: every read completion's bytes equal the peer's stream at the running offset, 0<n<=len on success, ReadAll/WriteAll success => n==len, the peer receives exactly the written stream in order, final drained length == sum of reported n when all writes succeeded; TestC02_ByteBufferTransfers: the ByteBuffer transfer helpers over a sonic.Dial conn (append/WriteTo/AsyncWriteTo, ReadFrom/AsyncReadFrom with 1..70001 bytes of room, socket buffers 64 KiB..1 MiB, peer drains/writes generated amounts): every reported count equals what left or entered the buffer, the peer receives the appended stream exactly once in order, would-block only with nothing readable; non-trivial = an *All operation that completed from the poller (needed >=2 transfers) OR read and write in flight together OR a WriteTo that wrote part and then hit would-block OR an AsyncWriteTo completed from the poller; distinct = hash of the trace")
 	rec.Assume("AsyncAdapter writes are limited to what fits the socket buffer (net.Conn.Write blocks the single harness goroutine otherwise); no Cancel/Close in the middle of the checked stream except at the end")
 	vt.CheckSteps(t, 600, 30, func(rt *rapid.T) {
 		w := newWorld(rt)
